@@ -1,10 +1,12 @@
 (* C06 — messages failing session-level checks never reach the application.  Statements only.
    Proved: the gate (a callback logged by verifySelect implies every earlier check passed) and that the model's checks are
    the specification's header predicates.  The reaction table (Logout / Reject 9 + Logout / Reject 10 + Logout / plain
-   Reject naming the field) is evaluated on every trace by c06_check (spec predicate, codes 602/603) and is `_partial`
-   as a theorem. *)
+   Reject naming the field; expected number unchanged resp. advanced by one) is proved for every message and every
+   logged-on, non-recovering state with nothing queued (c06_reaction_table) and, with the reachable-state invariant, for
+   every event list: clause 602 of c06_check never fails on a model trace (c06_reactions_hold_on_every_trace).
+   The reject shape (603: RefSeqNum, reversed routing) and the gates 601/604 are evaluated on every trace (`_partial`). *)
 From Coq Require Import ZArith List Bool.
-From QF Require Import Base.Bytes Session.Types Session.Model Session.Spec Session.LocalProofs.
+From QF Require Import Base.Bytes Session.Types Session.Model Session.Spec Session.LocalProofs Session.TraceProofs Session.ReactionProofs.
 Import ListNotations.
 Open Scope Z_scope.
 
@@ -32,3 +34,19 @@ Theorem c06_pass_through : forall s m hi lo app,
   hdr_ok (s_cfg s) m -> mi_seq m = FVal (s_tgt s) ->
   verify_select s m hi lo app = if app then verify_msg_against_app_impl s m else (s, None).
 Proof. exact verify_select_in_sequence. Qed.
+
+(* the reaction table, for every message: in a logged-on, non-recovering session with the channel open and nothing queued,
+   a sequence-gated message whose header has a defect of the table (header_defect: wrong BeginString; missing / empty /
+   mismatching CompIDs; missing / malformed / out-of-window SendingTime; missing / malformed MsgSeqNum; too low without
+   PossDup) gets exactly the mandated reaction: the wire carries [Logout], [Reject(reason); Logout] or [Reject(reason, tag)],
+   the expected number is unchanged resp. + 1, and the session ends in the logout state resp. stays in session *)
+Theorem c06_reaction_table : forall s m re,
+  s_st s = SInSession -> s_out_open s = true -> s_to_send s = [] ->
+  gated_type (mi_type m) = true -> header_defect (s_cfg s) (s_tgt s) m = Some re ->
+  c06_reaction_ok (s_cfg s) (obs_of s) (obs_of (step s (EIncoming m))) m re = true.
+Proof. exact reaction_step. Qed.
+
+(* TRACE LEVEL: for every configuration and every event list clause 602 never fails on the model's trace *)
+Theorem c06_reactions_hold_on_every_trace : forall c es,
+  free_of [602] (c06_check c (combine es (map obs_of (run_trace es (init_sess c))))) = true.
+Proof. exact c06_reactions_never_fail. Qed.
